@@ -6,7 +6,10 @@ patch=$(realpath "$1"); tier=$2; shift 2
 cd "$(dirname "$0")/.."
 wt=$(mktemp -d /tmp/mutwt.XXXXXX)
 git -C /repo worktree add -q --detach "$wt" HEAD || exit 3
-if ! git -C "$wt" apply "$patch"; then echo "PATCH DOES NOT APPLY"; git -C /repo worktree remove --force "$wt"; exit 3; fi
+if ! git -C "$wt" apply "$patch" 2>/dev/null; then
+  # the seeded change was written against an earlier /repo HEAD (before later hook lines): allow fuzz
+  if ! (cd "$wt" && patch -p1 -F3 -s < "$patch"); then echo "PATCH DOES NOT APPLY"; git -C /repo worktree remove --force "$wt"; exit 3; fi
+fi
 tag=$(echo -n "$wt" | md5sum | cut -c1-10)
 for id in "$@"; do
   out=$(VERIF_REPO="$wt" ./check "$id" "$tier" 2>&1); rc=$?
